@@ -137,6 +137,12 @@ int main(int argc, char** argv) {
             pos = TextIO::readFEN(fens[idx]);
             pseudoEpStart = idx >= pseudoBase;
         }
+        if (rnd.nextInt(6) == 0) {
+            // games that go on past the 50-move mark (nobody has to claim the draw): clocks up to 160 reach every consumer of the clock
+            int h = 90 + rnd.nextInt(40);
+            pos.setHalfMoveClock(h);
+            pos.setFullMoveCounter(std::max(pos.getFullMoveCounter(), h / 2 + 2));
+        }
         os << "{\"e\":\"Reset\"," << posFieldsJ(pos) << "}\n";
         os << "{\"e\":\"State\"," << stateFields(pos) << "}\n";
         std::vector<Frame> stack;
